@@ -283,7 +283,7 @@ pub fn run(r: &Runner) {
     let p1 = Profile { truncate: 30, mutate: 48, ..Profile::DEFAULT };
     r.par_random(
         "histories of 1..4 earlier calls (G1 buffers, prefixes of the probe, README loop) then a probe, vs the probe on a fresh value",
-        r.amount(2_000_000, 40_000_000),
+        r.amount(6_000_000, 80_000_000),
         420,
         |u: &mut Choice| gen_history(u, &p1),
         &|ctx, l, rec| check(r, ctx, l, rec),
@@ -291,7 +291,7 @@ pub fn run(r: &Runner) {
     let p2 = Profile { truncate: 8, mutate: 8, ..Profile::CLEAN };
     r.par_random(
         "histories over mostly-valid messages (Complete-heavy)",
-        r.amount(1_000_000, 20_000_000),
+        r.amount(3_000_000, 40_000_000),
         420,
         |u: &mut Choice| gen_history(u, &p2),
         &|ctx, l, rec| check(r, ctx, l, rec),
